@@ -503,6 +503,20 @@ pub fn gen_status(rng: &mut Rng) -> Case {
     if rng.chance(10) {
         add_permission_faults(rng, &mut w, &opts);
     }
+    if rng.chance(5) {
+        let cands: Vec<&String> = sel.selected.iter().collect();
+        if !cands.is_empty() {
+            let f: &String = rng.pick(&cands);
+            let kind = rng.pick(&["EAGAIN", "ETIMEDOUT", "EINTR"]);
+            if !faults.iter().any(|x: &Fault| x.path == format!("$W/{f}")) {
+                for nth in 0..3 {
+                    let mut fl = fault("fs.file.read", f, kind);
+                    fl.nth = nth;
+                    faults.push(fl);
+                }
+            }
+        }
+    }
     // "…or verified": a verification failure / a formatter crash on one of the selected files
     if rng.chance(12) {
         let cands: Vec<&String> = sel.selected.iter().collect();
@@ -611,6 +625,29 @@ pub fn gen_write(rng: &mut Rng) -> Case {
     if rng.chance(8) && !cands.is_empty() {
         let f: &String = rng.pick(&cands);
         faults.push(fault("fs.canonicalize", f, rng.pick(&["EIO", "EACCES"])));
+    }
+    if rng.chance(6) && !cands.is_empty() {
+        // the data write itself fails (full disk, I/O error): the file cannot stay whole, but the
+        // failure must be reported
+        let f: &String = rng.pick(&cands);
+        let mut fl = fault("fs.write.data", f, rng.pick(&["ENOSPC", "EIO"]));
+        fl.arg = rng.below(12);
+        if !faults.iter().any(|x: &Fault| x.path == fl.path) {
+            faults.push(fl);
+        }
+    }
+    if rng.chance(5) && !cands.is_empty() {
+        // transient errors on a file handle (only implementations that read through `File` meet
+        // them): three in a row — give up on the file or keep retrying, but never pretend
+        let f: &String = rng.pick(&cands);
+        let kind = rng.pick(&["EAGAIN", "ETIMEDOUT", "EINTR"]);
+        if !faults.iter().any(|x: &Fault| x.path == format!("$W/{f}")) {
+            for nth in 0..3 {
+                let mut fl = fault("fs.file.read", f, kind);
+                fl.nth = nth;
+                faults.push(fl);
+            }
+        }
     }
     if rng.chance(6) && !cands.is_empty() {
         // only an implementation that replaces files by rename ever meets this one
